@@ -374,6 +374,12 @@ def _d2(chk, fb):
             return F2
         if inner and nm == "getSecondOrderDerivative" and len(var) == 2:
             return F12
+        own = "obj" not in n or strip(f.obj(n))["k"] == "CXXThisExpr"
+        if own and nm == "getFirstOrderDerivative" and len(var) == 1:
+            # the wrapper's own first derivative (virtual call on this): already carries the transform's factor
+            return F1 * T1(sp.Symbol(var[0]))
+        if own and nm == "getSecondOrderDerivative" and len(var) == 1:
+            return F2 * T1(sp.Symbol(var[0])) ** 2 + F1 * T2(sp.Symbol(var[0]))
         if not inner and nm in ("getFirstOrderDerivative", "getSecondOrderDerivative") and not var:
             # transform of which variable? the parameter looked up inside the object expression
             onode = strip(f.obj(n))
